@@ -220,7 +220,10 @@ impl Monitor {
             }
         }
         if let UReq::Ack = req {
-            self.inbound_unacked.pop_front();
+            // with manual acknowledgements the reply is owed from the moment the user asks
+            if let Some(Pk::Publish { qos, pkid, .. }) = self.inbound_unacked.pop_front() {
+                self.replies.push_back(if qos == 1 { Pk::PubAck(pkid, 0) } else { Pk::PubRec(pkid, 0) });
+            }
         }
     }
 
@@ -506,10 +509,9 @@ impl Monitor {
                             self.optional_replies.remove(p);
                         }
                         other => {
-                            if !self.manual {
-                                let d = format!("client wrote {pk:?}; the reply owed next is {other:?}");
-                                self.v("unexpected_reply_on_wire", d);
-                            }
+                            // (manual acknowledgements: owed only once the user has asked)
+                            let d = format!("client wrote {pk:?}; the reply owed next is {other:?}");
+                            self.v("unexpected_reply_on_wire", d);
                         }
                     }
                 }
